@@ -226,6 +226,36 @@ func (e *bigEnv) bytesOf(v ssa.Value, at ssa.Instruction) *X {
 		if n == 1 && okUse {
 			return Op("copyN", e.plainIdx(x.Len, at), e.bytesOf(src, at))
 		}
+		// fresh zero buffer with exactly one copy into its tail: copy(buf[len(buf)-len(src):], src) is src
+		// left-padded with zeros to len(buf) (the big-endian integer value is preserved)
+		if n == 0 && okUse {
+			var tailSrc ssa.Value
+			cnt := 0
+			for _, u := range *x.Referrers() {
+				sl, ok := u.(*ssa.Slice)
+				if !ok || sl.X != ssa.Value(x) {
+					continue
+				}
+				for _, u2 := range *sl.Referrers() {
+					y, ok := u2.(*ssa.Call)
+					if !ok {
+						continue
+					}
+					if bi, ok := y.Call.Value.(*ssa.Builtin); ok && bi.Name() == "copy" && y.Call.Args[0] == ssa.Value(sl) {
+						cnt++
+						lo, ok := sl.Low.(*ssa.BinOp)
+						if sl.High == nil && ok && lo.Op == token.SUB &&
+							isLenOf(lo.X, func(v ssa.Value) bool { return v == ssa.Value(x) }) &&
+							isLenOf(lo.Y, func(v ssa.Value) bool { return lenBase(v) == lenBase(y.Call.Args[1]) }) {
+							tailSrc = y.Call.Args[1]
+						}
+					}
+				}
+			}
+			if cnt == 1 && tailSrc != nil {
+				return Op("padleft", e.plainIdx(x.Len, at), e.bytesOf(tailSrc, at))
+			}
+		}
 		return Op("make", e.plainIdx(x.Len, at))
 	case *ssa.Phi:
 		// a join whose incoming values are canonically equal is that value
